@@ -55,6 +55,9 @@ type XNode struct {
 	Output    *XNode
 	Implicit  bool   // implicit case
 	Units     string // Entry.Units (only set by deviations)
+	// IfFeatures: the node's own if-feature statements followed by those of every uses and augment statement
+	// that placed it (a statement's conditions reach the nodes it puts into the tree directly).
+	IfFeatures []string `json:",omitempty"`
 	// observed-only attributes (filled by canon, and by Attribute for the reference)
 	ReadOnly   bool
 	DefaultVal []string // DefaultValues()
